@@ -40,11 +40,11 @@ type C16Base struct {
 	UpdatedAt time.Time
 }
 
-type U16 struct {
+type C16U struct {
 	C16Base
 }
 
-type S16 struct {
+type C16S struct {
 	C16Base
 	DeletedAt gorm.DeletedAt
 }
@@ -61,7 +61,7 @@ const (
 	c16Deleted
 )
 
-const f3ID = "F3-C16-clone-drops-attrs-assigns"
+const c16F3ID = "F3-C16-clone-drops-attrs-assigns"
 
 var c16Cols = []string{"id", "name", "age", "email", "code", "rank", "created_at", "updated_at", "deleted_at"}
 var c16IsStr = []bool{false, true, false, true, true, false, false, false, false}
@@ -83,21 +83,24 @@ func c16N(soft bool) int {
 	return 8
 }
 
+func (C16U) TableName() string { return "c16_u" }
+func (C16S) TableName() string { return "c16_s" }
+
 func c16Table(soft bool) string {
 	if soft {
-		return "s16"
+		return "c16_s"
 	}
-	return "u16"
+	return "c16_u"
 }
 
-func encS(n int) string {
+func c16EncS(n int) string {
 	if n == 0 {
 		return ""
 	}
 	return fmt.Sprint("v", n)
 }
 
-func decS(s string) int {
+func c16DecS(s string) int {
 	if s == "" {
 		return 0
 	}
@@ -108,14 +111,14 @@ func decS(s string) int {
 	return n
 }
 
-func encT(n int) time.Time {
+func c16EncT(n int) time.Time {
 	if n == 0 {
 		return time.Time{}
 	}
 	return fixedNow.Add(time.Duration(n-1) * time.Hour)
 }
 
-func decT(t time.Time) int {
+func c16DecT(t time.Time) int {
 	if t.IsZero() || t.Year() <= 1 {
 		return 0
 	}
@@ -130,42 +133,42 @@ func decT(t time.Time) int {
 func c16Val(c, n int) interface{} {
 	switch {
 	case c16IsStr[c]:
-		return encS(n)
+		return c16EncS(n)
 	case c16IsTime[c]:
-		return encT(n)
+		return c16EncT(n)
 	case c == c16ID:
 		return uint(n)
 	}
 	return n
 }
 
-func mk16(soft bool, r []int) interface{} {
-	b := C16Base{ID: uint(r[0]), Name: encS(r[1]), Age: r[2], Email: encS(r[3]), Code: encS(r[4]), Rank: r[5],
-		CreatedAt: encT(r[6]), UpdatedAt: encT(r[7])}
+func c16Mk(soft bool, r []int) interface{} {
+	b := C16Base{ID: uint(r[0]), Name: c16EncS(r[1]), Age: r[2], Email: c16EncS(r[3]), Code: c16EncS(r[4]), Rank: r[5],
+		CreatedAt: c16EncT(r[6]), UpdatedAt: c16EncT(r[7])}
 	if soft {
-		s := &S16{C16Base: b}
+		s := &C16S{C16Base: b}
 		if r[8] != 0 {
-			s.DeletedAt = gorm.DeletedAt{Time: encT(r[8]), Valid: true}
+			s.DeletedAt = gorm.DeletedAt{Time: c16EncT(r[8]), Valid: true}
 		}
 		return s
 	}
-	return &U16{C16Base: b}
+	return &C16U{C16Base: b}
 }
 
-func rd16(v interface{}) []int {
+func c16Rd(v interface{}) []int {
 	var b C16Base
 	out := []int{}
 	switch x := v.(type) {
-	case *U16:
+	case *C16U:
 		b = x.C16Base
-	case *S16:
+	case *C16S:
 		b = x.C16Base
 	}
-	out = append(out, int(b.ID), decS(b.Name), b.Age, decS(b.Email), decS(b.Code), b.Rank, decT(b.CreatedAt), decT(b.UpdatedAt))
-	if s, ok := v.(*S16); ok {
+	out = append(out, int(b.ID), c16DecS(b.Name), b.Age, c16DecS(b.Email), c16DecS(b.Code), b.Rank, c16DecT(b.CreatedAt), c16DecT(b.UpdatedAt))
+	if s, ok := v.(*C16S); ok {
 		d := 0
 		if s.DeletedAt.Valid {
-			d = decT(s.DeletedAt.Time)
+			d = c16DecT(s.DeletedAt.Time)
 		}
 		out = append(out, d)
 	}
@@ -174,43 +177,43 @@ func rd16(v interface{}) []int {
 
 // ---- abstract programs (JSON-able: they are the replay inputs) -------------------------------
 
-type W16 struct { // one Where(...) call or the inline conds of a finisher
+type C16W struct { // one Where(...) call or the inline conds of a finisher
 	Form   string   `json:"form"` // struct | map | kv | clause | raw | group
 	Fields [][2]int `json:"fields,omitempty"`
-	Sub    []W16    `json:"sub,omitempty"`
+	Sub    []C16W   `json:"sub,omitempty"`
 }
 
-type I16 struct { // Attrs / Assign argument
+type C16I struct { // Attrs / Assign argument
 	Form   string   `json:"form"` // struct | map | kv
 	Fields [][2]int `json:"fields"`
 }
 
-type R16 struct {
+type C16R struct {
 	Kind string   `json:"kind"`          // nothing | all | updates
 	Asg  [][2]int `json:"asg,omitempty"` // (col, lit) ; lit = -1 means excluded.col
 }
 
-type St16 struct {
+type C16St struct {
 	K    string `json:"k"` // where | oc | attrs | assign | session | ctx
-	W    *W16   `json:"w,omitempty"`
-	Init *I16   `json:"init,omitempty"`
-	Rule *R16   `json:"rule,omitempty"`
+	W    *C16W  `json:"w,omitempty"`
+	Init *C16I  `json:"init,omitempty"`
+	Rule *C16R  `json:"rule,omitempty"`
 }
 
-type F16 struct {
+type C16F struct {
 	K   string `json:"k"` // save | create | foi | foc
 	Row []int  `json:"row,omitempty"`
-	Inl *W16   `json:"inl,omitempty"`
+	Inl *C16W  `json:"inl,omitempty"`
 }
 
-type P16 struct {
+type C16P struct {
 	Soft  bool    `json:"soft"`
 	Rows  [][]int `json:"rows"`
-	Steps []St16  `json:"steps"`
-	Fin   F16     `json:"fin"`
+	Steps []C16St `json:"steps"`
+	Fin   C16F    `json:"fin"`
 }
 
-type O16 struct {
+type C16O struct {
 	Rows [][]int `json:"rows"`
 	Val  []int   `json:"val"`
 	RA   int64   `json:"ra"`
@@ -220,21 +223,21 @@ type O16 struct {
 
 // ---- real side ---------------------------------------------------------------------------------
 
-type env16 struct {
+type c16Env struct {
 	db  *gorm.DB
 	rec *Recorder
 	sql *sql.DB
 }
 
-func open16() *env16 {
+func c16Open() *c16Env {
 	db, rec, sqlDB := OpenRec(&gorm.Config{NowFunc: fixedNowFunc})
-	if err := db.AutoMigrate(&U16{}, &S16{}); err != nil {
+	if err := db.AutoMigrate(&C16U{}, &C16S{}); err != nil {
 		panic(err)
 	}
-	return &env16{db, rec, sqlDB}
+	return &c16Env{db, rec, sqlDB}
 }
 
-func (e *env16) quiet(f func()) {
+func (e *c16Env) quiet(f func()) {
 	e.rec.mu.Lock()
 	off := e.rec.Off
 	e.rec.Off = true
@@ -244,11 +247,11 @@ func (e *env16) quiet(f func()) {
 }
 
 // setTable puts the table into exactly the given state (and resets the AUTOINCREMENT counter to max key)
-func (e *env16) setTable(soft bool, rows [][]int) {
+func (e *c16Env) setTable(soft bool, rows [][]int) {
 	t := c16Table(soft)
 	e.quiet(func() {
-		mustExec(e.sql, "DELETE FROM "+t)
-		mustExec(e.sql, "DELETE FROM sqlite_sequence WHERE name = ?", t)
+		c16MustExec(e.sql, "DELETE FROM "+t)
+		c16MustExec(e.sql, "DELETE FROM sqlite_sequence WHERE name = ?", t)
 		for _, r := range rows {
 			cols := c16Cols[:c16N(soft)]
 			args := make([]interface{}, len(cols))
@@ -260,18 +263,18 @@ func (e *env16) setTable(soft bool, rows [][]int) {
 					args[c] = c16Val(c, r[c])
 				}
 			}
-			mustExec(e.sql, "INSERT INTO "+t+" ("+strings.Join(cols, ",")+") VALUES (?"+strings.Repeat(",?", len(cols)-1)+")", args...)
+			c16MustExec(e.sql, "INSERT INTO "+t+" ("+strings.Join(cols, ",")+") VALUES (?"+strings.Repeat(",?", len(cols)-1)+")", args...)
 		}
 	})
 }
 
-func mustExec(db *sql.DB, q string, args ...interface{}) {
+func c16MustExec(db *sql.DB, q string, args ...interface{}) {
 	if _, err := db.Exec(q, args...); err != nil {
 		panic(fmt.Sprintf("%s: %v", q, err))
 	}
 }
 
-func (e *env16) dump(soft bool) [][]int {
+func (e *c16Env) dump(soft bool) [][]int {
 	var out [][]int
 	e.quiet(func() {
 		n := c16N(soft)
@@ -300,12 +303,12 @@ func (e *env16) dump(soft bool) [][]int {
 					if c16IsTime[c] {
 						r[c] = -1
 					} else {
-						r[c] = decS(x)
+						r[c] = c16DecS(x)
 					}
 				case []byte:
-					r[c] = decS(string(x))
+					r[c] = c16DecS(string(x))
 				case time.Time:
-					r[c] = decT(x)
+					r[c] = c16DecT(x)
 				default:
 					r[c] = -1
 				}
@@ -319,7 +322,7 @@ func (e *env16) dump(soft bool) [][]int {
 	return out
 }
 
-func fieldsToRow(soft bool, fs [][2]int) []int {
+func c16FieldsToRow(soft bool, fs [][2]int) []int {
 	r := make([]int, c16N(soft))
 	for _, f := range fs {
 		r[f[0]] = f[1]
@@ -327,15 +330,15 @@ func fieldsToRow(soft bool, fs [][2]int) []int {
 	return r
 }
 
-func structVal(soft bool, fs [][2]int) interface{} {
-	p := mk16(soft, fieldsToRow(soft, fs))
+func c16StructVal(soft bool, fs [][2]int) interface{} {
+	p := c16Mk(soft, c16FieldsToRow(soft, fs))
 	if soft {
-		return *(p.(*S16))
+		return *(p.(*C16S))
 	}
-	return *(p.(*U16))
+	return *(p.(*C16U))
 }
 
-func mapVal(fs [][2]int) map[string]interface{} {
+func c16MapVal(fs [][2]int) map[string]interface{} {
 	m := map[string]interface{}{}
 	for _, f := range fs {
 		m[c16Cols[f[0]]] = c16Val(f[0], f[1])
@@ -344,12 +347,12 @@ func mapVal(fs [][2]int) map[string]interface{} {
 }
 
 // whereArgs = the (query, args...) a user passes for this condition form
-func (w *W16) args(soft bool, db *gorm.DB) (interface{}, []interface{}) {
+func (w *C16W) args(soft bool, db *gorm.DB) (interface{}, []interface{}) {
 	switch w.Form {
 	case "struct":
-		return structVal(soft, w.Fields), nil
+		return c16StructVal(soft, w.Fields), nil
 	case "map":
-		return mapVal(w.Fields), nil
+		return c16MapVal(w.Fields), nil
 	case "kv":
 		return c16Cols[w.Fields[0][0]], []interface{}{c16Val(w.Fields[0][0], w.Fields[0][1])}
 	case "clause":
@@ -367,19 +370,19 @@ func (w *W16) args(soft bool, db *gorm.DB) (interface{}, []interface{}) {
 	panic("bad where form " + w.Form)
 }
 
-func (i *I16) args(soft bool) []interface{} {
+func (i *C16I) args(soft bool) []interface{} {
 	switch i.Form {
 	case "struct":
-		return []interface{}{structVal(soft, i.Fields)}
+		return []interface{}{c16StructVal(soft, i.Fields)}
 	case "map":
-		return []interface{}{mapVal(i.Fields)}
+		return []interface{}{c16MapVal(i.Fields)}
 	case "kv":
 		return []interface{}{c16Cols[i.Fields[0][0]], c16Val(i.Fields[0][0], i.Fields[0][1])}
 	}
 	panic("bad init form " + i.Form)
 }
 
-func (r *R16) clause() clause.OnConflict {
+func (r *C16R) clause() clause.OnConflict {
 	switch r.Kind {
 	case "nothing":
 		return clause.OnConflict{DoNothing: true}
@@ -402,7 +405,7 @@ func (r *R16) clause() clause.OnConflict {
 	return clause.OnConflict{Columns: []clause.Column{{Name: "id"}}, DoUpdates: set}
 }
 
-func errClass(err error) string {
+func c16ErrClass(err error) string {
 	switch {
 	case err == nil:
 		return "ok"
@@ -412,13 +415,13 @@ func errClass(err error) string {
 	return "other:" + err.Error()
 }
 
-type realOut struct {
-	O16
+type c16RealOut struct {
+	C16O
 	Writes int // INSERT/UPDATE/DELETE statements that reached the driver
 }
 
 // runReal executes the program on the real code from the given table state.
-func (e *env16) runReal(p *P16) (out realOut) {
+func (e *c16Env) runReal(p *C16P) (out c16RealOut) {
 	e.setTable(p.Soft, p.Rows)
 	e.rec.Reset()
 	defer func() {
@@ -458,19 +461,19 @@ func (e *env16) runReal(p *P16) (out realOut) {
 	var res *gorm.DB
 	switch p.Fin.K {
 	case "save":
-		dest = mk16(p.Soft, p.Fin.Row)
+		dest = c16Mk(p.Soft, p.Fin.Row)
 		res = h.Save(dest)
 	case "save2":
 		// db.Save(&v); db.Save(&v) — judged by the reference of ONE Save (idempotence)
-		dest = mk16(p.Soft, p.Fin.Row)
+		dest = c16Mk(p.Soft, p.Fin.Row)
 		if res = h.Save(dest); res.Error == nil {
 			res = h.Save(dest)
 		}
 	case "create":
-		dest = mk16(p.Soft, p.Fin.Row)
+		dest = c16Mk(p.Soft, p.Fin.Row)
 		res = h.Create(dest)
 	case "foi", "foc":
-		dest = mk16(p.Soft, make([]int, c16N(p.Soft)))
+		dest = c16Mk(p.Soft, make([]int, c16N(p.Soft)))
 		var conds []interface{}
 		if p.Fin.Inl != nil {
 			q, a := p.Fin.Inl.args(p.Soft, e.db)
@@ -482,9 +485,9 @@ func (e *env16) runReal(p *P16) (out realOut) {
 			res = h.FirstOrCreate(dest, conds...)
 		}
 	}
-	out.Val = rd16(dest)
+	out.Val = c16Rd(dest)
 	out.RA = res.RowsAffected
-	out.Err = errClass(res.Error)
+	out.Err = c16ErrClass(res.Error)
 	for _, ev := range e.rec.Snapshot() {
 		if ev.Kind == "exec" || ev.Kind == "stmt_exec" || ev.Kind == "query" || ev.Kind == "stmt_query" {
 			u := strings.ToUpper(strings.TrimSpace(ev.SQL))
@@ -499,7 +502,7 @@ func (e *env16) runReal(p *P16) (out realOut) {
 
 // ---- protocol form for the Lean model -----------------------------------------------------------
 
-func pairsJ(fs [][2]int) []interface{} {
+func c16PairsJ(fs [][2]int) []interface{} {
 	out := make([]interface{}, len(fs))
 	for i, f := range fs {
 		out[i] = []interface{}{f[0], f[1]}
@@ -508,14 +511,14 @@ func pairsJ(fs [][2]int) []interface{} {
 }
 
 // sorted by column NAME, as BuildCondition sorts map keys
-func sortedByName(fs [][2]int) [][2]int {
+func c16SortedByName(fs [][2]int) [][2]int {
 	out := append([][2]int(nil), fs...)
 	sort.SliceStable(out, func(i, j int) bool { return c16Cols[out[i][0]] < c16Cols[out[j][0]] })
 	return out
 }
 
-// andJ mirrors clause.And: no expression -> nothing, one -> itself, several -> AndConditions
-func andJ(l []interface{}) []interface{} {
+// c16AndJ mirrors clause.And: no expression -> nothing, one -> itself, several -> AndConditions
+func c16AndJ(l []interface{}) []interface{} {
 	switch len(l) {
 	case 0:
 		return []interface{}{}
@@ -527,7 +530,7 @@ func andJ(l []interface{}) []interface{} {
 
 // condsJ = the expressions one Where(...) call appends to Clauses["WHERE"].Exprs, in the shape
 // statement.go BuildCondition produces them (it returns `[]Expression{clause.And(conds...)}`)
-func (w *W16) condsJ() []interface{} {
+func (w *C16W) condsJ() []interface{} {
 	var out []interface{}
 	switch w.Form {
 	case "struct":
@@ -536,12 +539,12 @@ func (w *W16) condsJ() []interface{} {
 				out = append(out, []interface{}{"eq", f[0], f[1]})
 			}
 		}
-		return andJ(out)
+		return c16AndJ(out)
 	case "map":
-		for _, f := range sortedByName(w.Fields) {
+		for _, f := range c16SortedByName(w.Fields) {
 			out = append(out, []interface{}{"eq", f[0], f[1]})
 		}
-		return andJ(out)
+		return c16AndJ(out)
 	case "kv", "clause":
 		out = append(out, []interface{}{"eq", w.Fields[0][0], w.Fields[0][1]})
 	case "raw":
@@ -551,7 +554,7 @@ func (w *W16) condsJ() []interface{} {
 		for i := range w.Sub {
 			l = append(l, w.Sub[i].condsJ()...)
 		}
-		return andJ(l)
+		return c16AndJ(l)
 	}
 	if out == nil {
 		out = []interface{}{}
@@ -559,20 +562,20 @@ func (w *W16) condsJ() []interface{} {
 	return out
 }
 
-func (i *I16) J() interface{} {
+func (i *C16I) J() interface{} {
 	if i == nil {
 		return nil
 	}
 	switch i.Form {
 	case "struct":
-		return []interface{}{"struct", pairsJ(i.Fields)}
+		return []interface{}{"struct", c16PairsJ(i.Fields)}
 	case "map":
-		return []interface{}{"map", pairsJ(sortedByName(i.Fields))}
+		return []interface{}{"map", c16PairsJ(c16SortedByName(i.Fields))}
 	}
 	return []interface{}{"kv", i.Fields[0][0], i.Fields[0][1]}
 }
 
-func (r *R16) J() interface{} {
+func (r *C16R) J() interface{} {
 	switch r.Kind {
 	case "nothing":
 		return []interface{}{"nothing"}
@@ -593,7 +596,7 @@ func (r *R16) J() interface{} {
 	return []interface{}{"updates", as}
 }
 
-func (p *P16) leanOp() []interface{} {
+func (p *C16P) leanOp() []interface{} {
 	steps := []interface{}{}
 	for i := range p.Steps {
 		s := &p.Steps[i]
@@ -638,7 +641,7 @@ func (p *P16) leanOp() []interface{} {
 
 const c16Keys = 3
 
-func genRow16(rng *rand.Rand, soft bool, key int) []int {
+func c16GenRow(rng *rand.Rand, soft bool, key int) []int {
 	r := make([]int, c16N(soft))
 	r[c16ID] = key
 	r[c16Name] = rng.Intn(3)
@@ -653,13 +656,13 @@ func genRow16(rng *rand.Rand, soft bool, key int) []int {
 	return r
 }
 
-func genTable16(rng *rand.Rand, soft bool) [][]int {
+func c16GenTable(rng *rand.Rand, soft bool) [][]int {
 	var rows [][]int
 	for k := 1; k <= c16Keys; k++ {
 		if rng.Intn(3) == 0 {
 			continue
 		}
-		r := genRow16(rng, soft, k)
+		r := c16GenRow(rng, soft, k)
 		r[c16Created] = rng.Intn(3)
 		r[c16Updated] = rng.Intn(3)
 		if soft && rng.Intn(3) == 0 {
@@ -674,7 +677,7 @@ func genTable16(rng *rand.Rand, soft bool) [][]int {
 }
 
 // condition fields over name/age (+ sometimes id, email): small domains so that they hit existing rows
-func genFields16(rng *rand.Rand, allowID bool, allowZero bool) [][2]int {
+func c16GenFields(rng *rand.Rand, allowID bool, allowZero bool) [][2]int {
 	var fs [][2]int
 	add := func(c, v int) {
 		if v != 0 || allowZero {
@@ -699,39 +702,39 @@ func genFields16(rng *rand.Rand, allowID bool, allowZero bool) [][2]int {
 	return fs
 }
 
-func genWhere16(rng *rand.Rand, rich bool, depth int) *W16 {
+func c16GenWhere(rng *rand.Rand, rich bool, depth int) *C16W {
 	n := 2
 	if rich {
 		n = 6
 	}
 	switch rng.Intn(n) {
 	case 0:
-		return &W16{Form: "struct", Fields: genFields16(rng, true, false)}
+		return &C16W{Form: "struct", Fields: c16GenFields(rng, true, false)}
 	case 1:
-		return &W16{Form: "map", Fields: genFields16(rng, true, true)}
+		return &C16W{Form: "map", Fields: c16GenFields(rng, true, true)}
 	case 2:
-		f := genFields16(rng, false, true)
-		return &W16{Form: "kv", Fields: f[:1]}
+		f := c16GenFields(rng, false, true)
+		return &C16W{Form: "kv", Fields: f[:1]}
 	case 3:
-		f := genFields16(rng, false, true)
-		return &W16{Form: "clause", Fields: f[:1]}
+		f := c16GenFields(rng, false, true)
+		return &C16W{Form: "clause", Fields: f[:1]}
 	case 4:
-		f := genFields16(rng, false, true)
-		return &W16{Form: "raw", Fields: f[:1]}
+		f := c16GenFields(rng, false, true)
+		return &C16W{Form: "raw", Fields: f[:1]}
 	default:
 		if depth <= 0 {
-			return &W16{Form: "struct", Fields: genFields16(rng, true, false)}
+			return &C16W{Form: "struct", Fields: c16GenFields(rng, true, false)}
 		}
-		w := &W16{Form: "group"}
+		w := &C16W{Form: "group"}
 		for i, m := 0, 1+rng.Intn(2); i < m; i++ {
-			w.Sub = append(w.Sub, *genWhere16(rng, rich, depth-1))
+			w.Sub = append(w.Sub, *c16GenWhere(rng, rich, depth-1))
 		}
 		return w
 	}
 }
 
 // attrs/assign fields: non-key columns (assigning the key through Assign is outside the model's stated domain)
-func genInit16(rng *rand.Rand) *I16 {
+func c16GenInit(rng *rand.Rand) *C16I {
 	var fs [][2]int
 	cols := []int{c16Name, c16Age, c16Email, c16Code, c16Rank}
 	rng.Shuffle(len(cols), func(i, j int) { cols[i], cols[j] = cols[j], cols[i] })
@@ -741,26 +744,26 @@ func genInit16(rng *rand.Rand) *I16 {
 	sort.Slice(fs, func(i, j int) bool { return fs[i][0] < fs[j][0] })
 	switch rng.Intn(3) {
 	case 0:
-		return &I16{Form: "struct", Fields: fs}
+		return &C16I{Form: "struct", Fields: fs}
 	case 1:
-		return &I16{Form: "map", Fields: fs}
+		return &C16I{Form: "map", Fields: fs}
 	}
-	return &I16{Form: "kv", Fields: fs[:1]}
+	return &C16I{Form: "kv", Fields: fs[:1]}
 }
 
-func genRule16(rng *rand.Rand, soft bool) *R16 {
+func c16GenRule(rng *rand.Rand, soft bool) *C16R {
 	switch rng.Intn(4) {
 	case 0:
-		return &R16{Kind: "nothing"}
+		return &C16R{Kind: "nothing"}
 	case 1:
-		return &R16{Kind: "all"}
+		return &C16R{Kind: "all"}
 	}
 	cols := []int{c16Name, c16Age, c16Email, c16Code, c16Rank, c16Updated}
 	if soft {
 		cols = append(cols, c16Deleted)
 	}
 	rng.Shuffle(len(cols), func(i, j int) { cols[i], cols[j] = cols[j], cols[i] })
-	r := &R16{Kind: "updates"}
+	r := &C16R{Kind: "updates"}
 	for _, c := range cols[:1+rng.Intn(3)] {
 		lit := -1
 		if rng.Intn(3) == 0 && !c16IsTime[c] {
@@ -773,61 +776,61 @@ func genRule16(rng *rand.Rand, soft bool) *R16 {
 }
 
 // genLogical builds a chain WITHOUT derivation steps + finisher
-func genLogical16(rng *rand.Rand, rich bool) *P16 {
+func c16GenLogical(rng *rand.Rand, rich bool) *C16P {
 	soft := rng.Intn(2) == 0
-	return genLogical16On(rng, rich, soft, genTable16(rng, soft))
+	return c16GenLogicalOn(rng, rich, soft, c16GenTable(rng, soft))
 }
 
-func genLogical16On(rng *rand.Rand, rich bool, soft bool, rows [][]int) *P16 {
-	p := &P16{Soft: soft, Rows: rows}
+func c16GenLogicalOn(rng *rand.Rand, rich bool, soft bool, rows [][]int) *C16P {
+	p := &C16P{Soft: soft, Rows: rows}
 	switch k := rng.Intn(10); {
 	case k < 2:
-		p.Fin = F16{K: "save", Row: genRow16(rng, p.Soft, rng.Intn(c16Keys+1))}
+		p.Fin = C16F{K: "save", Row: c16GenRow(rng, p.Soft, rng.Intn(c16Keys+1))}
 		if !rich && rng.Intn(2) == 0 {
 			p.Fin.K = "save2"
 		}
 	case k < 5:
-		p.Fin = F16{K: "create", Row: genRow16(rng, p.Soft, rng.Intn(c16Keys+2))}
+		p.Fin = C16F{K: "create", Row: c16GenRow(rng, p.Soft, rng.Intn(c16Keys+2))}
 		if rng.Intn(6) != 0 {
-			p.Steps = append(p.Steps, St16{K: "oc", Rule: genRule16(rng, p.Soft)})
+			p.Steps = append(p.Steps, C16St{K: "oc", Rule: c16GenRule(rng, p.Soft)})
 		}
 	default:
-		p.Fin = F16{K: "foi"}
+		p.Fin = C16F{K: "foi"}
 		if k >= 7 {
 			p.Fin.K = "foc"
 		}
 		for i, n := 0, rng.Intn(3); i < n; i++ {
-			p.Steps = append(p.Steps, St16{K: "where", W: genWhere16(rng, rich, 1)})
+			p.Steps = append(p.Steps, C16St{K: "where", W: c16GenWhere(rng, rich, 1)})
 		}
 		if rng.Intn(3) == 0 || len(p.Steps) == 0 {
-			p.Fin.Inl = genWhere16(rng, rich, 0)
+			p.Fin.Inl = c16GenWhere(rng, rich, 0)
 			if p.Fin.Inl.Form == "group" {
-				p.Fin.Inl = &W16{Form: "struct", Fields: genFields16(rng, true, false)}
+				p.Fin.Inl = &C16W{Form: "struct", Fields: c16GenFields(rng, true, false)}
 			}
 		}
 		if rng.Intn(3) != 0 {
-			p.Steps = append(p.Steps, St16{K: "attrs", Init: genInit16(rng)})
+			p.Steps = append(p.Steps, C16St{K: "attrs", Init: c16GenInit(rng)})
 		}
 		if rng.Intn(2) == 0 {
-			p.Steps = append(p.Steps, St16{K: "assign", Init: genInit16(rng)})
+			p.Steps = append(p.Steps, C16St{K: "assign", Init: c16GenInit(rng)})
 		}
 		if rng.Intn(12) == 0 {
-			p.Steps = append(p.Steps, St16{K: "attrs"}) // Attrs() with no argument resets
+			p.Steps = append(p.Steps, C16St{K: "attrs"}) // Attrs() with no argument resets
 		}
 		rng.Shuffle(len(p.Steps), func(i, j int) { p.Steps[i], p.Steps[j] = p.Steps[j], p.Steps[i] })
 	}
 	return p
 }
 
-func (p *P16) withDeriv(pos int, kind string) *P16 {
+func (p *C16P) withDeriv(pos int, kind string) *C16P {
 	q := *p
-	q.Steps = append(append(append([]St16{}, p.Steps[:pos]...), St16{K: kind}), p.Steps[pos:]...)
+	q.Steps = append(append(append([]C16St{}, p.Steps[:pos]...), C16St{K: kind}), p.Steps[pos:]...)
 	return &q
 }
 
 // f3Pattern: a derivation (Session/WithContext) occurs AFTER an Attrs/Assign call with a non-empty
 // argument list and before the finisher.
-func (p *P16) f3Pattern() bool {
+func (p *C16P) f3Pattern() bool {
 	seen := false
 	for _, s := range p.Steps {
 		if (s.K == "attrs" || s.K == "assign") && s.Init != nil {
@@ -841,7 +844,7 @@ func (p *P16) f3Pattern() bool {
 }
 
 // without returns the program minus the steps selected by drop
-func (p *P16) without(drop func(St16) bool) *P16 {
+func (p *C16P) without(drop func(C16St) bool) *C16P {
 	q := *p
 	q.Steps = nil
 	for _, s := range p.Steps {
@@ -852,9 +855,9 @@ func (p *P16) without(drop func(St16) bool) *P16 {
 	return &q
 }
 
-func (p *P16) key() string { return canon(p) }
+func (p *C16P) key() string { return canon(p) }
 
-func (p *P16) collides() bool {
+func (p *C16P) collides() bool {
 	// a written/queried key or condition meets an existing row
 	if len(p.Rows) == 0 {
 		return false
@@ -873,7 +876,7 @@ func (p *P16) collides() bool {
 
 // ---- suite 1: correspondence --------------------------------------------------------------------
 
-func compareTie(r *Result, p *P16, real realOut, leanRaw json.RawMessage) {
+func c16CompareTie(r *Result, p *C16P, real c16RealOut, leanRaw json.RawMessage) {
 	var m struct {
 		Rows [][]int `json:"rows"`
 		Val  []int   `json:"val"`
@@ -887,8 +890,8 @@ func compareTie(r *Result, p *P16, real realOut, leanRaw json.RawMessage) {
 	if m.Rows == nil {
 		m.Rows = [][]int{}
 	}
-	obs := O16{Rows: real.Rows, Val: real.Val, RA: real.RA, Err: real.Err}
-	exp := O16{Rows: m.Rows, Val: m.Val, RA: m.RA, Err: m.Err}
+	obs := C16O{Rows: real.Rows, Val: real.Val, RA: real.RA, Err: real.Err}
+	exp := C16O{Rows: m.Rows, Val: m.Val, RA: m.RA, Err: m.Err}
 	if exp.Err != "ok" {
 		// on a driver error only table, RowsAffected and error class are compared
 		obs.Val, exp.Val = nil, nil
@@ -900,16 +903,16 @@ func compareTie(r *Result, p *P16, real realOut, leanRaw json.RawMessage) {
 	}
 }
 
-func tieSuite(r *Result, rng *rand.Rand, tier string) {
+func c16TieSuite(r *Result, rng *rand.Rand, tier string) {
 	n := 6000
 	if tier == "thorough" {
 		n = 60000
 	} else if tier == "search" {
 		n = 400000
 	}
-	e := open16()
-	var progs []*P16
-	var reals []realOut
+	e := c16Open()
+	var progs []*C16P
+	var reals []c16RealOut
 	var ops [][]interface{}
 	flush := func() {
 		if len(ops) == 0 {
@@ -920,13 +923,13 @@ func tieSuite(r *Result, rng *rand.Rand, tier string) {
 			r.Violate(Violation{Kind: "correspondence", Suite: "tie", Input: "batch", Observed: err.Error(), Expected: "driver answers"})
 		} else {
 			for i := range progs {
-				compareTie(r, progs[i], reals[i], ans[i])
+				c16CompareTie(r, progs[i], reals[i], ans[i])
 			}
 		}
 		progs, reals, ops = nil, nil, nil
 	}
 	for i := 0; i < n && !expired(); i++ {
-		p := genLogical16(rng, true)
+		p := c16GenLogical(rng, true)
 		// derivations anywhere (0..2 of them)
 		for j, m := 0, rng.Intn(3); j < m; j++ {
 			kind := "session"
@@ -940,8 +943,8 @@ func tieSuite(r *Result, rng *rand.Rand, tier string) {
 			real := e.runReal(p)
 			r.Case("tie", p.key(), p.collides())
 			r.H("tie.finisher", p.Fin.K)
-			r.H("tie.outcome", p.Fin.K+"/"+outcome16(p, real))
-			r.H("tie.model_branch", branch16(p))
+			r.H("tie.outcome", p.Fin.K+"/"+c16Outcome(p, real))
+			r.H("tie.model_branch", c16Branch(p))
 			r.H("tie.chain_len", fmt.Sprint(len(p.Steps)))
 			r.H("tie.table_rows", fmt.Sprint(len(p.Rows)))
 			if p.f3Pattern() {
@@ -952,7 +955,7 @@ func tieSuite(r *Result, rng *rand.Rand, tier string) {
 			progs = append(progs, p)
 			reals = append(reals, real)
 			ops = append(ops, p.leanOp())
-			p = genLogical16On(rng, true, p.Soft, real.Rows)
+			p = c16GenLogicalOn(rng, true, p.Soft, real.Rows)
 		}
 		if len(ops) >= 2000 {
 			flush()
@@ -961,9 +964,9 @@ func tieSuite(r *Result, rng *rand.Rand, tier string) {
 	flush()
 }
 
-// branch16 names the model branch the program exercises (computed from the input alone)
-func branch16(p *P16) string {
-	t := newRef16(p.Soft, p.Rows)
+// c16Branch names the model branch the program exercises (computed from the input alone)
+func c16Branch(p *C16P) string {
+	t := c16NewRef(p.Soft, p.Rows)
 	switch p.Fin.K {
 	case "save", "save2":
 		k := p.Fin.Row[0]
@@ -1006,7 +1009,7 @@ func branch16(p *P16) string {
 			hasAssign = s.Init != nil
 		}
 	}
-	exp := refRun(p)
+	exp := c16RefRun(p)
 	b := p.Fin.K + "/miss"
 	if exp.hit {
 		b = p.Fin.K + "/hit"
@@ -1023,11 +1026,11 @@ func branch16(p *P16) string {
 	return b
 }
 
-func outcome16(p *P16, o realOut) string {
+func c16Outcome(p *C16P, o c16RealOut) string {
 	if o.Err != "ok" {
 		return o.Err
 	}
-	changed := diffRows(p.Rows, o.Rows)
+	changed := c16DiffRows(p.Rows, o.Rows)
 	switch {
 	case len(o.Rows) > len(p.Rows):
 		return "inserted"
@@ -1037,7 +1040,7 @@ func outcome16(p *P16, o realOut) string {
 	return "no-write"
 }
 
-func diffRows(a, b [][]int) int {
+func c16DiffRows(a, b [][]int) int {
 	am := map[int]string{}
 	for _, r := range a {
 		am[r[0]] = fmt.Sprint(r)
@@ -1071,22 +1074,22 @@ func diffRows(a, b [][]int) int {
 // Latitude (accepted, not judged): tracked timestamps (created_at / updated_at) everywhere; the in-memory
 // record when the driver reports an error; RowsAffected (the statement does not define it; the tie compares it).
 
-type ref16 struct {
+type c16Ref struct {
 	soft bool
 	rows map[int][]int
 }
 
-func newRef16(soft bool, rows [][]int) *ref16 {
+func c16NewRef(soft bool, rows [][]int) *c16Ref {
 	m := map[int][]int{}
 	for _, r := range rows {
 		m[r[0]] = append([]int(nil), r...)
 	}
-	return &ref16{soft, m}
+	return &c16Ref{soft, m}
 }
 
-func (t *ref16) live(r []int) bool { return !t.soft || r[c16Deleted] == 0 }
+func (t *c16Ref) live(r []int) bool { return !t.soft || r[c16Deleted] == 0 }
 
-func (t *ref16) nextKey() int {
+func (t *c16Ref) nextKey() int {
 	n := 1
 	for k := range t.rows {
 		if k >= n {
@@ -1096,7 +1099,7 @@ func (t *ref16) nextKey() int {
 	return n
 }
 
-func (t *ref16) dump() [][]int {
+func (t *c16Ref) dump() [][]int {
 	var ks []int
 	for k := range t.rows {
 		ks = append(ks, k)
@@ -1110,7 +1113,7 @@ func (t *ref16) dump() [][]int {
 }
 
 // the row a fresh insert of v produces
-func (t *ref16) fresh(v []int) []int {
+func (t *c16Ref) fresh(v []int) []int {
 	r := append([]int(nil), v...)
 	if r[c16ID] == 0 {
 		r[c16ID] = t.nextKey()
@@ -1125,7 +1128,7 @@ func (t *ref16) fresh(v []int) []int {
 }
 
 // insert with optional rule; returns (record, error class)
-func (t *ref16) create(v []int, rule *R16) ([]int, string) {
+func (t *c16Ref) create(v []int, rule *C16R) ([]int, string) {
 	f := t.fresh(v)
 	old, exists := t.rows[f[0]]
 	if !exists {
@@ -1162,7 +1165,7 @@ func (t *ref16) create(v []int, rule *R16) ([]int, string) {
 	return rec, "ok"
 }
 
-func (t *ref16) save(v []int) ([]int, string) {
+func (t *c16Ref) save(v []int) ([]int, string) {
 	if v[0] == 0 {
 		return t.create(v, nil)
 	}
@@ -1170,15 +1173,15 @@ func (t *ref16) save(v []int) ([]int, string) {
 		copy(old[1:], v[1:])
 		return append([]int(nil), v...), "ok"
 	}
-	return t.create(v, &R16{Kind: "all"})
+	return t.create(v, &C16R{Kind: "all"})
 }
 
-type eqs16 struct {
+type c16Eqs struct {
 	match [][2]int // all equalities the row must satisfy
 	init  [][2]int // those that also initialise a new record (everything but raw SQL text)
 }
 
-func (w *W16) eqs(e *eqs16) {
+func (w *C16W) eqs(e *c16Eqs) {
 	switch w.Form {
 	case "struct":
 		for _, f := range w.Fields {
@@ -1199,7 +1202,7 @@ func (w *W16) eqs(e *eqs16) {
 	}
 }
 
-func (i *I16) apply(r []int) {
+func (i *C16I) apply(r []int) {
 	if i == nil {
 		return
 	}
@@ -1212,11 +1215,11 @@ func (i *I16) apply(r []int) {
 }
 
 // expected outcome of the LOGICAL program (derivation steps are ignored: they must not matter)
-func refRun(p *P16) O16 {
-	t := newRef16(p.Soft, p.Rows)
-	var e eqs16
-	var attrs, assigns *I16
-	var rule *R16
+func c16RefRun(p *C16P) C16O {
+	t := c16NewRef(p.Soft, p.Rows)
+	var e c16Eqs
+	var attrs, assigns *C16I
+	var rule *C16R
 	for i := range p.Steps {
 		s := &p.Steps[i]
 		switch s.K {
@@ -1272,10 +1275,10 @@ func refRun(p *P16) O16 {
 			}
 		}
 	}
-	return O16{Rows: t.dump(), Val: rec, Err: errc, hit: wasHit}
+	return C16O{Rows: t.dump(), Val: rec, Err: errc, hit: wasHit}
 }
 
-func maskTS(r []int) []int {
+func c16MaskTS(r []int) []int {
 	if r == nil {
 		return nil
 	}
@@ -1284,22 +1287,22 @@ func maskTS(r []int) []int {
 	return out
 }
 
-func maskRows(rows [][]int) [][]int {
+func c16MaskRows(rows [][]int) [][]int {
 	out := make([][]int, len(rows))
 	for i, r := range rows {
-		out[i] = maskTS(r)
+		out[i] = c16MaskTS(r)
 	}
 	return out
 }
 
-// judge16 returns "" if the real outcome is what the property demands for this program
-func judge16(p *P16, real realOut) (string, interface{}, interface{}) {
-	return judgeVs(p, real, refRun(p))
+// c16Judge returns "" if the real outcome is what the property demands for this program
+func c16Judge(p *C16P, real c16RealOut) (string, interface{}, interface{}) {
+	return c16JudgeVs(p, real, c16RefRun(p))
 }
 
-// judgeVs compares the real outcome of p with a given expected outcome
-func judgeVs(p *P16, real realOut, exp O16) (string, interface{}, interface{}) {
-	obsT, expT := maskRows(real.Rows), maskRows(exp.Rows)
+// c16JudgeVs compares the real outcome of p with a given expected outcome
+func c16JudgeVs(p *C16P, real c16RealOut, exp C16O) (string, interface{}, interface{}) {
+	obsT, expT := c16MaskRows(real.Rows), c16MaskRows(exp.Rows)
 	if canon(obsT) != canon(expT) {
 		return "table after the operation differs from the reference map", obsT, expT
 	}
@@ -1307,36 +1310,36 @@ func judgeVs(p *P16, real realOut, exp O16) (string, interface{}, interface{}) {
 		return "error class differs", real.Err, exp.Err
 	}
 	// the returned record is part of the statement for FirstOrInit/FirstOrCreate only
-	if exp.Err == "ok" && (p.Fin.K == "foi" || p.Fin.K == "foc") && canon(maskTS(real.Val)) != canon(maskTS(exp.Val)) {
-		return "returned record differs from the reference", maskTS(real.Val), maskTS(exp.Val)
+	if exp.Err == "ok" && (p.Fin.K == "foi" || p.Fin.K == "foc") && canon(c16MaskTS(real.Val)) != canon(c16MaskTS(exp.Val)) {
+		return "returned record differs from the reference", c16MaskTS(real.Val), c16MaskTS(exp.Val)
 	}
 	switch p.Fin.K {
 	case "foi":
-		if real.Writes != 0 || diffRows(p.Rows, real.Rows) != 0 {
+		if real.Writes != 0 || c16DiffRows(p.Rows, real.Rows) != 0 {
 			return "FirstOrInit wrote to the database", real.Writes, 0
 		}
 	case "foc":
-		if real.Writes > 1 || diffRows(p.Rows, real.Rows) > 1 {
+		if real.Writes > 1 || c16DiffRows(p.Rows, real.Rows) > 1 {
 			return "FirstOrCreate wrote more than one row", real.Writes, "<= 1"
 		}
 	}
 	return "", nil, nil
 }
 
-func judgeAndReport(r *Result, e *env16, p *P16) bool {
+func c16JudgeAndReport(r *Result, e *c16Env, p *C16P) bool {
 	real := e.runReal(p)
-	what, obs, exp := judge16(p, real)
+	what, obs, exp := c16Judge(p, real)
 	if what == "" {
 		return true
 	}
-	if p.f3Pattern() && listed(f3ID) {
+	if p.f3Pattern() && listed(c16F3ID) {
 		// inside the listed pattern only: the chain without the derivations satisfies the reference AND the
 		// observed outcome is exactly the reference outcome of the chain with its Attrs and/or Assign calls
 		// removed (that is what "clone() drops attrs/assigns" produces); anything else is a violation
-		base := p.without(func(s St16) bool { return s.K == "session" || s.K == "ctx" })
-		if w2, _, _ := judge16(base, e.runReal(base)); w2 == "" {
+		base := p.without(func(s C16St) bool { return s.K == "session" || s.K == "ctx" })
+		if w2, _, _ := c16Judge(base, e.runReal(base)); w2 == "" {
 			for _, drop := range [][]string{{"attrs"}, {"assign"}, {"attrs", "assign"}} {
-				q := base.without(func(s St16) bool {
+				q := base.without(func(s C16St) bool {
 					for _, d := range drop {
 						if s.K == d {
 							return true
@@ -1347,8 +1350,8 @@ func judgeAndReport(r *Result, e *env16, p *P16) bool {
 				if len(q.Steps) == len(base.Steps) {
 					continue
 				}
-				if w3, _, _ := judgeVs(p, real, refRun(q)); w3 == "" {
-					r.KnownFinding(f3ID, "Session/WithContext after Attrs/Assign makes FirstOrInit/FirstOrCreate ignore the attrs/assigns (Statement.clone drops both fields)")
+				if w3, _, _ := c16JudgeVs(p, real, c16RefRun(q)); w3 == "" {
+					r.KnownFinding(c16F3ID, "Session/WithContext after Attrs/Assign makes FirstOrInit/FirstOrCreate ignore the attrs/assigns (Statement.clone drops both fields)")
 					return false
 				}
 			}
@@ -1358,42 +1361,42 @@ func judgeAndReport(r *Result, e *env16, p *P16) bool {
 	return false
 }
 
-func f3Witness() *P16 {
-	return &P16{Soft: false, Rows: [][]int{},
-		Steps: []St16{{K: "where", W: &W16{Form: "struct", Fields: [][2]int{{c16Name, 1}}}},
-			{K: "attrs", Init: &I16{Form: "struct", Fields: [][2]int{{c16Age, 2}}}},
+func c16F3Witness() *C16P {
+	return &C16P{Soft: false, Rows: [][]int{},
+		Steps: []C16St{{K: "where", W: &C16W{Form: "struct", Fields: [][2]int{{c16Name, 1}}}},
+			{K: "attrs", Init: &C16I{Form: "struct", Fields: [][2]int{{c16Age, 2}}}},
 			{K: "ctx"}},
-		Fin: F16{K: "foi"}}
+		Fin: C16F{K: "foi"}}
 }
 
-func e2eSuite(r *Result, rng *rand.Rand, tier string) {
+func c16E2ESuite(r *Result, rng *rand.Rand, tier string) {
 	n := 2200
 	if tier == "thorough" {
 		n = 30000
 	} else if tier == "search" {
 		n = 200000
 	}
-	e := open16()
+	e := c16Open()
 	// probe: re-confirm the listed finding on its witness
 	{
-		w := f3Witness()
+		w := c16F3Witness()
 		real := e.runReal(w)
-		what, _, _ := judge16(w, real)
+		what, _, _ := c16Judge(w, real)
 		switch {
-		case what != "" && listed(f3ID):
-			r.KnownFinding(f3ID, "witness Where(U{Name}).Attrs(U{Age}).WithContext(ctx).FirstOrInit(&u): attrs lost (Statement.clone drops attrs/assigns)")
+		case what != "" && listed(c16F3ID):
+			r.KnownFinding(c16F3ID, "witness Where(U{Name}).Attrs(U{Age}).WithContext(ctx).FirstOrInit(&u): attrs lost (Statement.clone drops attrs/assigns)")
 		case what != "":
-			r.Violate(Violation{Kind: "e2e", Suite: "e2e", Input: w, Observed: real.Val, Expected: refRun(w).Val, Note: what})
+			r.Violate(Violation{Kind: "e2e", Suite: "e2e", Input: w, Observed: real.Val, Expected: c16RefRun(w).Val, Note: what})
 		default:
-			r.Note("finding %s no longer reproduces on its witness", f3ID)
+			r.Note("finding %s no longer reproduces on its witness", c16F3ID)
 		}
 	}
 	for i := 0; i < n && !expired(); i++ {
-		p := genLogical16(rng, false)
+		p := c16GenLogical(rng, false)
 		// a history of 1..3 logical programs, each run in every derivation variant from the same table state
 		for step, steps := 0, 1+rng.Intn(3); step < steps; step++ {
-			exp := refRun(p)
-			variants := []*P16{p}
+			exp := c16RefRun(p)
+			variants := []*C16P{p}
 			for pos := 0; pos <= len(p.Steps); pos++ {
 				variants = append(variants, p.withDeriv(pos, "session"), p.withDeriv(pos, "ctx"))
 			}
@@ -1402,12 +1405,12 @@ func e2eSuite(r *Result, rng *rand.Rand, tier string) {
 				variants = append(variants, p.withDeriv(rng.Intn(len(p.Steps)+1), "ctx").withDeriv(rng.Intn(len(p.Steps)+2), "session"))
 			}
 			for vi, v := range variants {
-				judgeAndReport(r, e, v)
+				c16JudgeAndReport(r, e, v)
 				r.Case("e2e", v.key(), v.collides())
 				if vi == 0 {
 					r.H("e2e.finisher", p.Fin.K)
-					r.H("e2e.expected", p.Fin.K+"/"+expOutcome(p, exp))
-					r.H("e2e.branch", branch16(p))
+					r.H("e2e.expected", p.Fin.K+"/"+c16ExpOutcome(p, exp))
+					r.H("e2e.branch", c16Branch(p))
 					r.H("e2e.variants", fmt.Sprint(len(variants)))
 					for _, s := range p.Steps {
 						switch s.K {
@@ -1440,19 +1443,19 @@ func e2eSuite(r *Result, rng *rand.Rand, tier string) {
 			if i < 3 && step == 0 {
 				r.Sample(p)
 			}
-			p = genLogical16On(rng, false, p.Soft, exp.Rows)
+			p = c16GenLogicalOn(rng, false, p.Soft, exp.Rows)
 		}
 	}
 }
 
-func expOutcome(p *P16, exp O16) string {
+func c16ExpOutcome(p *C16P, exp C16O) string {
 	if exp.Err != "ok" {
 		return exp.Err
 	}
 	switch {
 	case len(exp.Rows) > len(p.Rows):
 		return "inserted"
-	case diffRows(maskRows(p.Rows), maskRows(exp.Rows)) > 0:
+	case c16DiffRows(c16MaskRows(p.Rows), c16MaskRows(exp.Rows)) > 0:
 		return "updated"
 	}
 	if p.Fin.K == "foi" || p.Fin.K == "foc" {
@@ -1465,18 +1468,18 @@ func expOutcome(p *P16, exp O16) string {
 }
 
 func init() {
-	register("C16", tieSuite)
-	register("C16", e2eSuite)
+	register("C16", c16TieSuite)
+	register("C16", c16E2ESuite)
 	replayers["C16/e2e"] = func(r *Result, input json.RawMessage) {
-		var p P16
+		var p C16P
 		if err := json.Unmarshal(input, &p); err != nil {
 			r.Note("bad replay input: %v", err)
 			return
 		}
-		judgeAndReport(r, open16(), &p)
+		c16JudgeAndReport(r, c16Open(), &p)
 	}
 	replayers["C16/tie"] = func(r *Result, input json.RawMessage) {
-		var p P16
+		var p C16P
 		if err := json.Unmarshal(input, &p); err != nil {
 			r.Note("bad replay input: %v", err)
 			return
@@ -1485,13 +1488,13 @@ func init() {
 		if f := flag.Lookup("driver"); f != nil && f.Value.String() != "" {
 			driverPath = f.Value.String()
 		}
-		e := open16()
+		e := c16Open()
 		real := e.runReal(&p)
 		ans, err := AskLean([][]interface{}{p.leanOp()})
 		if err != nil {
 			r.Note("lean driver: %v", err)
 			return
 		}
-		compareTie(r, &p, real, ans[0])
+		c16CompareTie(r, &p, real, ans[0])
 	}
 }
